@@ -17,6 +17,22 @@ impl Time {
 pub open spec fn int_cmp(a: int, b: int) -> Ordering {
     if a < b { Ordering::Less } else if a == b { Ordering::Equal } else { Ordering::Greater }
 }
+impl Time {
+    // seconds since the epoch
+    #[verifier::external_body]
+    pub fn timestamp(&self) -> (r: i64) ensures r as int == self.ts() { unimplemented!() }
+    #[verifier::external_body]
+    pub fn utc(year: i32, month: u32, day: u32, hour: u32, min: u32, sec: u32) -> (r: Time) { unimplemented!() }
+}
+impl Eq for Time {}
+impl OrdSpecImpl for Time {
+    open spec fn obeys_cmp_spec() -> bool { true }
+    open spec fn cmp_spec(&self, other: &Time) -> Ordering { int_cmp(self.ts(), other.ts()) }
+}
+impl Ord for Time {
+    #[verifier::external_body]
+    fn cmp(&self, other: &Time) -> Ordering { unimplemented!() }
+}
 impl PartialEqSpecImpl for Time {
     open spec fn obeys_eq_spec() -> bool { true }
     open spec fn eq_spec(&self, other: &Time) -> bool { self.ts() == other.ts() }
@@ -36,9 +52,25 @@ impl PartialOrd for Time {
 
 // ---- opaque data types --------------------------------------------------
 #[verifier::external_body] pub struct UriRsync { _opaque: () }
+impl Clone for UriRsync {
+    #[verifier::external_body]
+    fn clone(&self) -> (r: Self) ensures r == *self { unimplemented!() }
+}
 #[verifier::external_body] pub struct UriHttps { _opaque: () }
+impl Clone for UriHttps {
+    #[verifier::external_body]
+    fn clone(&self) -> (r: Self) ensures r == *self { unimplemented!() }
+}
 #[verifier::external_body] pub struct Serial { _opaque: () }
+impl Clone for Serial {
+    #[verifier::external_body]
+    fn clone(&self) -> (r: Self) ensures r == *self { unimplemented!() }
+}
 #[verifier::external_body] pub struct Bytes { _opaque: () }
+impl Clone for Bytes {
+    #[verifier::external_body]
+    fn clone(&self) -> (r: Self) ensures r == *self { unimplemented!() }
+}
 #[verifier::external_body] pub struct File { _opaque: () }
 #[verifier::external_body] #[verifier::reject_recursive_types(T)] pub struct BufReader<T> { _t: T }
 
@@ -48,6 +80,34 @@ impl PartialOrd for Time {
 pub struct PathBuf { pub p: Path }
 impl PathBuf {
     pub open spec fn as_path(&self) -> Path { self.p }
+    #[verifier::external_body]
+    pub fn join(&self, name: &str) -> (r: PathBuf) { unimplemented!() }
+    #[verifier::external_body]
+    pub fn parent(&self) -> (r: Option<&Path>) { unimplemented!() }
+}
+impl Clone for PathBuf {
+    #[verifier::external_body]
+    fn clone(&self) -> (r: PathBuf) ensures r == *self { unimplemented!() }
+}
+impl std::ops::Deref for PathBuf {
+    type Target = Path;
+    #[verifier::external_body]
+    fn deref(&self) -> (r: &Path) ensures *r == self.p { unimplemented!() }
+}
+impl Path {
+    #[verifier::external_body]
+    pub fn to_path_buf(&self) -> (r: PathBuf) ensures r.p == *self { unimplemented!() }
+    #[verifier::external_body]
+    pub fn join(&self, name: &str) -> (r: PathBuf) { unimplemented!() }
+    #[verifier::external_body]
+    pub fn parent(&self) -> (r: Option<&Path>) { unimplemented!() }
+    // file-system queries: nothing is known about their answers
+    #[verifier::external_body]
+    pub fn is_dir(&self) -> (r: bool) { unimplemented!() }
+    #[verifier::external_body]
+    pub fn is_file(&self) -> (r: bool) { unimplemented!() }
+    #[verifier::external_body]
+    pub fn exists(&self) -> (r: bool) { unimplemented!() }
 }
 impl<'a> vstd::std_specs::convert::FromSpecImpl<&'a Path> for PathBuf {
     open spec fn obeys_from_spec() -> bool { true }
@@ -66,6 +126,26 @@ impl DirEntry {
     pub uninterp spec fn is_file_spec(&self) -> bool;
     #[verifier::external_body]
     pub fn path(&self) -> (r: &Path) ensures *r == self.path_spec() { unimplemented!() }
+    #[verifier::external_body]
+    pub fn is_dir(&self) -> (r: bool) ensures r == self.is_dir_spec() { unimplemented!() }
+    #[verifier::external_body]
+    pub fn is_file(&self) -> (r: bool) ensures r == self.is_file_spec() { unimplemented!() }
+    #[verifier::external_body]
+    pub fn into_path(self) -> (r: PathBuf) ensures r.p == self.path_spec() { unimplemented!() }
+    #[verifier::external_body]
+    pub fn metadata(&self) -> (r: &Metadata)
+        ensures r.is_dir_spec() == self.is_dir_spec(), r.is_file_spec() == self.is_file_spec(),
+    { unimplemented!() }
+    #[verifier::external_body]
+    pub fn file_name(&self) -> (r: &OsStr) { unimplemented!() }
+    #[verifier::external_body]
+    pub fn len(&self) -> (r: u64) { unimplemented!() }
+}
+#[verifier::external_body] pub struct OsStr { _opaque: () }
+#[verifier::external_body] pub struct Metadata { _opaque: () }
+impl Metadata {
+    pub uninterp spec fn is_dir_spec(&self) -> bool;
+    pub uninterp spec fn is_file_spec(&self) -> bool;
     #[verifier::external_body]
     pub fn is_dir(&self) -> (r: bool) ensures r == self.is_dir_spec() { unimplemented!() }
     #[verifier::external_body]
@@ -142,11 +222,35 @@ pub fn fatal_remove_dir_all(path: &Path) -> (r: Result<(), Failed>)
     requires !tree_needed(*path),
 { unimplemented!() }
 
+// The other removal primitives of utils::fatal / std::fs carry the same permissions.
+#[verifier::external_body]
+pub fn fatal_remove_all(path: &Path) -> (r: Result<(), Failed>)
+    requires !needed(*path), !tree_needed(*path),
+{ unimplemented!() }
+#[verifier::external_body] pub struct IoError { _opaque: () }
+#[verifier::external_body]
+pub fn fs_remove_file(path: &Path) -> (r: Result<(), IoError>)
+    requires !needed(*path),
+{ unimplemented!() }
+#[verifier::external_body]
+pub fn fs_remove_dir_all(path: &Path) -> (r: Result<(), IoError>)
+    requires !tree_needed(*path),
+{ unimplemented!() }
+// Non-deleting helpers of utils::fatal used in store.rs.
+#[verifier::external_body]
+pub fn fatal_read_file(path: &Path) -> (r: Result<Vec<u8>, Failed>) { unimplemented!() }
+#[verifier::external_body]
+pub fn fatal_read_existing_file(path: &Path) -> (r: Result<Option<Vec<u8>>, Failed>) { unimplemented!() }
+#[verifier::external_body]
+pub fn fatal_create_dir_all(path: &Path) -> (r: Result<(), Failed>) { unimplemented!() }
+
 // ---- collector::Cleanup: the sets registered for retention ----------------
 #[verifier::external_body] pub struct RsyncModule { _opaque: () }
 pub uninterp spec fn module_of(uri: UriRsync) -> RsyncModule;
 #[verifier::external_body] pub struct Cleanup { _opaque: () }
 impl Cleanup {
+    #[verifier::external_body]
+    pub fn new() -> (r: Cleanup) ensures r.rrdp_set() == Set::<UriHttps>::empty(), r.rsync_set() == Set::<RsyncModule>::empty() { unimplemented!() }
     pub uninterp spec fn rrdp_set(&self) -> Set<UriHttps>;
     pub uninterp spec fn rsync_set(&self) -> Set<RsyncModule>;
     #[verifier::external_body]
@@ -160,3 +264,73 @@ impl Cleanup {
                 final(self).rrdp_set() == old(self).rrdp_set(),
     { unimplemented!() }
 }
+
+pub assume_specification<T: core::marker::Destruct> [std::mem::drop] (_0: T);
+// ---- std functions without a vstd specification (ASSUMED: their std definitions).
+// Declared so that a refactoring that starts using one of them is verified, not rejected.
+pub assume_specification<T: Ord + core::marker::Destruct> [std::cmp::min] (a: T, b: T) -> (r: T)
+    ensures <T as vstd::std_specs::cmp::OrdSpec>::obeys_cmp_spec() ==> r == (if vstd::std_specs::cmp::OrdSpec::cmp_spec(&b, &a) == std::cmp::Ordering::Less { b } else { a }),
+;
+pub assume_specification<T: Ord + core::marker::Destruct> [std::cmp::max] (a: T, b: T) -> (r: T)
+    ensures <T as vstd::std_specs::cmp::OrdSpec>::obeys_cmp_spec() ==> r == (if vstd::std_specs::cmp::OrdSpec::cmp_spec(&b, &a) == std::cmp::Ordering::Less { a } else { b }),
+;
+pub assume_specification [std::cmp::Ordering::is_lt] (o: std::cmp::Ordering) -> (r: bool)
+    ensures r == (o == std::cmp::Ordering::Less);
+pub assume_specification [std::cmp::Ordering::is_gt] (o: std::cmp::Ordering) -> (r: bool)
+    ensures r == (o == std::cmp::Ordering::Greater);
+pub assume_specification [std::cmp::Ordering::is_le] (o: std::cmp::Ordering) -> (r: bool)
+    ensures r == (o != std::cmp::Ordering::Greater);
+pub assume_specification [std::cmp::Ordering::is_ge] (o: std::cmp::Ordering) -> (r: bool)
+    ensures r == (o != std::cmp::Ordering::Less);
+pub assume_specification<T: core::marker::Destruct> [bool::then_some] (b: bool, t: T) -> (r: Option<T>)
+    ensures r == (if b { Some(t) } else { None::<T> });
+pub assume_specification<T: core::marker::Destruct> [std::option::Option::<T>::xor] (a: Option<T>, b: Option<T>) -> (r: Option<T>)
+    ensures r == (match (a, b) { (Some(x), None) => Some(x), (None, Some(y)) => Some(y), _ => None::<T> });
+pub assume_specification<'a, T: Copy> [std::option::Option::<&T>::copied] (o: Option<&'a T>) -> (r: Option<T>)
+    ensures r == (match o { Some(x) => Some(*x), None => None::<T> });
+pub assume_specification<T: core::marker::Destruct> [std::option::Option::<T>::or] (a: Option<T>, b: Option<T>) -> (r: Option<T>)
+    ensures r == (if a is Some { a } else { b });
+pub assume_specification<T: core::marker::Destruct, U: core::marker::Destruct> [std::option::Option::<T>::and] (a: Option<T>, b: Option<U>) -> (r: Option<U>)
+    ensures r == (if a is Some { b } else { None::<U> });
+pub assume_specification<T: core::marker::Destruct, U: core::marker::Destruct> [std::option::Option::<T>::zip] (a: Option<T>, b: Option<U>) -> (r: Option<(T, U)>)
+    ensures r == (match (a, b) { (Some(x), Some(y)) => Some((x, y)), _ => None::<(T, U)> });
+pub assume_specification<T, F: FnOnce(T) -> bool + core::marker::Destruct> [std::option::Option::<T>::is_some_and] (o: Option<T>, f: F) -> (r: bool)
+    requires o matches Some(x) ==> f.requires((x,)),
+    ensures match o { Some(x) => f.ensures((x,), r), None => !r };
+pub assume_specification<T, F: FnOnce(T) -> bool + core::marker::Destruct> [std::option::Option::<T>::is_none_or] (o: Option<T>, f: F) -> (r: bool)
+    requires o matches Some(x) ==> f.requires((x,)),
+    ensures match o { Some(x) => f.ensures((x,), r), None => r };
+pub assume_specification<T: core::marker::Destruct, P: FnOnce(&T) -> bool + core::marker::Destruct> [std::option::Option::<T>::filter] (o: Option<T>, p: P) -> (r: Option<T>)
+    requires o matches Some(x) ==> p.requires((&x,)),
+    ensures match o { Some(x) => (r == Some(x) && p.ensures((&x,), true)) || (r is None && p.ensures((&x,), false)), None => r is None };
+pub assume_specification<T: core::marker::Destruct, F: FnOnce() -> Option<T> + core::marker::Destruct> [std::option::Option::<T>::or_else] (o: Option<T>, f: F) -> (r: Option<T>)
+    requires o is None ==> f.requires(()),
+    ensures match o { Some(x) => r == o, None => f.ensures((), r) };
+pub assume_specification<T, U: core::marker::Destruct, F: FnOnce(T) -> U + core::marker::Destruct> [std::option::Option::<T>::map_or] (o: Option<T>, d: U, f: F) -> (r: U)
+    requires o matches Some(x) ==> f.requires((x,)),
+    ensures match o { Some(x) => f.ensures((x,), r), None => r == d };
+pub assume_specification<T, U, D: FnOnce() -> U + core::marker::Destruct, F: FnOnce(T) -> U + core::marker::Destruct> [std::option::Option::<T>::map_or_else] (o: Option<T>, d: D, f: F) -> (r: U)
+    requires o matches Some(x) ==> f.requires((x,)), o is None ==> d.requires(()),
+    ensures match o { Some(x) => f.ensures((x,), r), None => d.ensures((), r) };
+pub assume_specification<T: core::marker::Destruct, E: core::marker::Destruct> [std::result::Result::<T, E>::unwrap_or] (x: Result<T, E>, d: T) -> (r: T)
+    ensures r == (match x { Ok(v) => v, Err(_) => d });
+pub assume_specification<T, E: core::marker::Destruct, F: core::marker::Destruct> [std::result::Result::<T, E>::or] (a: Result<T, E>, b: Result<T, F>) -> (r: Result<T, F>)
+    ensures match a { Ok(v) => r == Ok::<T, F>(v), Err(_) => r == b };
+pub assume_specification<T, E, U, F: FnOnce(T) -> Result<U, E> + core::marker::Destruct> [std::result::Result::<T, E>::and_then] (x: Result<T, E>, f: F) -> (r: Result<U, E>)
+    requires x matches Ok(v) ==> f.requires((v,)),
+    ensures match x { Ok(v) => f.ensures((v,), r), Err(e) => r == Err::<U, E>(e) };
+pub assume_specification<T, E: core::marker::Destruct, F: FnOnce(T) -> bool + core::marker::Destruct> [std::result::Result::<T, E>::is_ok_and] (x: Result<T, E>, f: F) -> (r: bool)
+    requires x matches Ok(v) ==> f.requires((v,)),
+    ensures match x { Ok(v) => f.ensures((v,), r), Err(_) => !r };
+pub assume_specification<T, E, F: FnOnce(E) -> T + core::marker::Destruct> [std::result::Result::<T, E>::unwrap_or_else] (x: Result<T, E>, f: F) -> (r: T)
+    requires x matches Err(e) ==> f.requires((e,)),
+    ensures match x { Ok(v) => r == v, Err(e) => f.ensures((e,), r) };
+pub assume_specification<T> [std::mem::replace] (dest: &mut T, src: T) -> (r: T)
+    ensures r == *old(dest), *final(dest) == src;
+pub assume_specification<T: Default + core::marker::Destruct, E: core::marker::Destruct> [std::result::Result::<T, E>::unwrap_or_default] (x: Result<T, E>) -> (r: T)
+    ensures x matches Ok(v) ==> r == v;
+pub assume_specification<T, E, U: core::marker::Destruct, F: FnOnce(T) -> U + core::marker::Destruct> [std::result::Result::<T, E>::map_or] (x: Result<T, E>, d: U, f: F) -> (r: U)
+    requires x matches Ok(v) ==> f.requires((v,)),
+    ensures match x { Ok(v) => f.ensures((v,), r), Err(_) => r == d };
+pub assume_specification [<std::cmp::Ordering as PartialEq>::eq] (a: &std::cmp::Ordering, b: &std::cmp::Ordering) -> (r: bool)
+    ensures r == (*a == *b);
